@@ -900,6 +900,30 @@ func modeC20(e *Env) {
 		}
 		txJSONCase(e, t, "synthetic")
 	}
+	// (c) long valid UTF-8 values: multi-byte characters at every alignment (a prefix of 0..3 ASCII bytes, then characters of
+	// 2, 3 or 4 bytes), so that whatever offset an implementation may cut or sniff a value at falls inside a character
+	for _, n := range []int{300, 600, 1100, 2100, 4200, 8300} {
+		for pre := 0; pre < 4; pre++ {
+			for wi, ch := range []string{"\u00e9", "\u4e2d", "\U0001f600"} {
+				if !e.Thorough() && (n/100+pre+wi)%2 == 1 {
+					continue
+				}
+				b := []byte(strings.Repeat("a", pre))
+				for len(b) < n {
+					b = append(b, ch...)
+				}
+				t := &gobinlog.Transaction{NowPosition: gobinlog.Position{Filename: "f", Offset: 4}, NextPosition: gobinlog.Position{Filename: "f", Offset: 9}}
+				ev := &gobinlog.StreamEvent{Type: gobinlog.StatementInsert, Table: gobinlog.NewMysqlTableName("d", "t")}
+				ev.RowValues = []*gobinlog.RowData{{Columns: []*gobinlog.ColumnData{
+					{Filed: "c", Type: gobinlog.ColumnType(252), Data: b},
+					{Filed: string(b[:pre+60]), Type: gobinlog.ColumnType(15), Data: append([]byte("x"), b...)}}}}
+				q := &gobinlog.StreamEvent{Type: gobinlog.StatementCreate, Table: gobinlog.NewMysqlTableName("d", "t")}
+				q.Query.SQL = "create table t /* " + string(b) + " */"
+				t.Events = []*gobinlog.StreamEvent{ev, q}
+				txJSONCase(e, t, "long-utf8")
+			}
+		}
+	}
 }
 
 
@@ -909,11 +933,11 @@ func jsonStates(t *gobinlog.Transaction) []M {
 	out := []M{}
 	raw, err := json.Marshal(t)
 	if err != nil {
-		return []M{{"err": true, "vals": [][]string{}, "ids": [][]string{}}}
+		return []M{{"err": true, "vals": [][]string{}, "ids": [][]string{}, "tname": ""}}
 	}
 	var top map[string]interface{}
 	if json.Unmarshal(raw, &top) != nil {
-		return []M{{"err": true, "vals": [][]string{}, "ids": [][]string{}}}
+		return []M{{"err": true, "vals": [][]string{}, "ids": [][]string{}, "tname": ""}}
 	}
 	evs, _ := top["events"].([]interface{})
 	img := func(v interface{}) [][]string {
@@ -947,7 +971,8 @@ func jsonStates(t *gobinlog.Transaction) []M {
 	}
 	for _, x := range evs {
 		em, _ := x.(map[string]interface{})
-		out = append(out, M{"err": false, "vals": img(em["rowValues"]), "ids": img(em["rowIdentifies"])})
+		tn, _ := em["type"].(string)
+		out = append(out, M{"err": false, "vals": img(em["rowValues"]), "ids": img(em["rowIdentifies"]), "tname": tn})
 	}
 	return out
 }
@@ -960,6 +985,9 @@ func modeC20s(e *Env) {
 		gp := quickGP()
 		gp.SimpleCols = i%2 == 0 // CHAR / VARCHAR columns: empty strings are frequent
 		l := GenLog(e.R, cfgs[i%len(cfgs)], gp, nil)
+		if i%12 == 1 {
+			l = verbsLog(e.R, cfgs[i%len(cfgs)], gp) // statements the library has no kind for: none of them may surface as "unknown"
+		}
 		RunStreamScenario(e.Rec, &StreamScenario{ID: i + 1, Fam: "c20s", Log: l, Start: l.Boundaries()[0], ServerID: 20,
 			Attempts: []AttemptPlan{defaultAttempt()}, Note: "json-states", JSONStates: true})
 	}
